@@ -234,28 +234,57 @@ class Model:
         self.macros = [it for _, it in self.items if it["kind"] == "macro"]
         self.fns = [it for _, it in self.items if it["kind"] == "fn"]
 
+    # ------------------------------------------------------------------ string recognisers
+    REC_VOCAB = {"if", "else", "return", "let", "match", "Ok", "Err", "Self", "Some", "None", "iter", "into_iter", "copied", "cloned",
+                 "find", "find_map", "map", "ok_or", "ok_or_else", "then_some", "then", "from", "into", "as_str", "str", "position",
+                 "get", "Error", "TryFromStrError", "Into", "From", "static", "eq", "ne", "true", "false", "ref", "mut", "T", "Copy"}
+
+    def recogniser_verdict(self, body, it, features, depth=0, sig=""):
+        """'' when a `TryFrom<&str>` body the translator cannot read as a table still consists only of equality tests against
+        spellings and of plain plumbing (if-chains, a lookup through the emitting direction over a list of variants, a
+        small helper): it falls to the correspondence tier.  'recognising table: ' otherwise."""
+        txt = re.sub(r'"(?:[^"\\]|\\.)*"', ' ', body)
+        if re.search(r"(?<![A-Za-z_])[0-9]", txt):
+            return "recognising table: "
+        name = it["name"]
+        variants = set(self.variant_names(it, features))
+        bound = set(re.findall(r"\|\s*&?\s*(?:mut\s+)?([a-z_][a-z0-9_]*)\s*\|", txt)) | set(re.findall(r"\blet\s+(?:mut\s+)?([a-z_][a-z0-9_]*)\b", txt)) | \
+            set(re.findall(r"[(,]\s*(?:mut\s+)?([a-z_][a-z0-9_]*)\s*:", sig)) | {"s", "value", "identifier", "name", "string", "text", "v", "_"}
+        for ident in set(re.findall(r"[A-Za-z_][A-Za-z0-9_]*", txt)) - self.REC_VOCAB - bound - variants - {name}:
+            if re.fullmatch(r"[A-Z][A-Z0-9_]*", ident):
+                continue                                    # a constant: a spelling or a list of variants
+            helpers = [f for f in self.fns if f["name"] == ident] + \
+                      [f for imp in self.impls for f in imp.get("items", []) if f.get("kind") == "fn" and f.get("name") == ident]
+            if helpers and depth < 2 and all(self.recogniser_verdict(f.get("body") or "", it, features, depth + 1, f.get("sig", "")) == "" for f in helpers):
+                continue
+            return "recognising table: "
+        return ""
+
     # ------------------------------------------------------------------ the filter predicate
     PRED_VOCAB = {"if", "else", "return", "let", "match", "Err", "Ok", "Self", "Error", "UnknownPKCredentialParam", "UnknownType", "UnknownAlg",
                   "PublicKeyCredentialParameters", "KnownPublicKeyCredentialParameters", "value", "alg", "key_type", "KNOWN_ALGS",
-                  "contains", "iter", "any", "as_str", "true", "false", "matches", "ref", "mut", "ES256", "ED_DSA"}
+                  "contains", "iter", "any", "as_str", "true", "false", "matches", "ref", "mut", "ES256", "ED_DSA", "COUNT_KNOWN_ALGS"}
 
-    def predicate_verdict(self, body, depth=0):
+    def predicate_verdict(self, body, depth=0, sig=""):
         """'' when a body the translator cannot read exactly is still made only of plain comparisons of the type string
         with the literal and of the algorithm with the known list (rewritten, destructured, through a constant or a small
         helper) — it then falls to the correspondence tier like any refactored body; 'recognising predicate: ' when it
         brings in anything else (a hash, a case-folding compare, a normalisation, another literal), which sampling
         cannot vouch for"""
         txt = re.sub(r'"(?:[^"\\]|\\.)*"', ' S ', body)
-        if len(re.findall(r'"(?:[^"\\]|\\.)*"', body)) > 1 or re.search(r"(?<![A-Za-z_])[0-9]", txt.replace(" S ", " ")):
+        if len(re.findall(r'"(?:[^"\\]|\\.)*"', body)) > 1 or \
+                [n for n in re.findall(r"(?<![A-Za-z_0-9])[0-9][0-9A-Za-z_]*", txt.replace(" S ", " ")) if n not in ("0", "1")]:
             return "recognising predicate: "
-        bound = set(re.findall(r"\|\s*(?:&\s*)?([a-z_][a-z0-9_]*)\s*\|", txt)) | set(re.findall(r"\blet\s+(?:mut\s+)?([a-z_][a-z0-9_]*)\b", txt))
-        for ident in set(re.findall(r"[A-Za-z_][A-Za-z0-9_]*", txt)) - self.PRED_VOCAB - bound - {"S"}:
+        bound = set(re.findall(r"\|\s*(?:&\s*)?([a-z_][a-z0-9_]*)\s*\|", txt)) | set(re.findall(r"\blet\s+(?:mut\s+)?([a-z_][a-z0-9_]*)\b", txt)) | \
+            set(re.findall(r"[(,]\s*(?:mut\s+)?([a-z_][a-z0-9_]*)\s*:", sig)) | set(re.findall(r"\bfor\s+([a-z_][a-z0-9_]*)\s+in\b", txt))
+        loopv = {"while", "loop", "break", "for", "in", "len", "bool", "i32", "usize", "const", "fn", "pub", "self"}
+        for ident in set(re.findall(r"[A-Za-z_][A-Za-z0-9_]*", txt)) - self.PRED_VOCAB - loopv - bound - {"S", "_"}:
             cands = self.by_name.get(ident, [])
             if cands and all(c["kind"] == "const" and re.fullmatch(r'\s*"(?:[^"\\]|\\.)*"\s*', c.get("expr") or "") for c in cands):
                 continue                                    # a string constant standing for the literal
             helpers = [f for f in self.fns if f["name"] == ident] + \
                       [f for imp in self.impls for f in imp.get("items", []) if f.get("kind") == "fn" and f.get("name") == ident]
-            if helpers and depth < 2 and all(self.predicate_verdict(f.get("body") or "", depth + 1) == "" for f in helpers):
+            if helpers and depth < 2 and all(self.predicate_verdict(f.get("body") or "", depth + 1, f.get("sig", "")) == "" for f in helpers):
                 continue                                    # a small helper made of the same vocabulary
             return "recognising predicate: "
         return ""
@@ -675,8 +704,13 @@ class Model:
                             raise Untranslatable(name, f"TryFrom<&str>: odd arm {arm}")
                         de.append([self.str_const(pat, mod, features, owner=name), variants.index(mm.group(1))])
                 except Untranslatable as e:
-                    # the direction that decides which spellings are *accepted*
-                    raise Untranslatable(name, "recognising table: " + str(e))
+                    # the direction that decides which spellings are *accepted*: unreadable and made of more than plain
+                    # equality tests (a case fold, a trim, a prefix strip, a hash) is what no sampling can vouch for
+                    body = ""
+                    for f in imp["items"]:
+                        if f["kind"] == "fn" and f["name"] == "try_from":
+                            body = f.get("body") or ""
+                    raise Untranslatable(name, self.recogniser_verdict(body, it, features) + str(e))
         if any(s is None for s in ser):
             raise Untranslatable(name, "From<Enum> for &str table incomplete")
         seen, uniq = set(), []
@@ -938,7 +972,7 @@ class Model:
                             body = f["body"]
                     m = re.search(r'key_type != ("(?:[^"\\]|\\.)*")', body)
                     if not m or "KNOWN_ALGS . contains" not in body:
-                        raise Untranslatable(st, self.predicate_verdict(body) + "try_from body not recognised")
+                        raise Untranslatable(st, self.predicate_verdict(body, 0, " ".join(f.get("sig", "") for f in imp["items"] if f["kind"] == "fn")) + "try_from body not recognised")
                     de_lit = json.loads(m.group(1))
                     # the predicate *is* the table of what is kept: the whole body, not a fragment of it, must be the
                     # two plain comparisons (a tag / hash compare, a normalisation in front, a third branch are not)
